@@ -75,7 +75,16 @@ type world struct {
 	ffacts [3][2]base.BallotFact
 	fsigns [3][2][]base.BallotSignFact // [kind][letter][member]
 	csigns [nCrafted][2][]base.BallotSignFact
+
+	// impersonated signatures, made on demand: a sign whose node ADDRESS is the
+	// one of locals[addr] and whose KEY (signer + signature) is the one of
+	// locals[holder]; holder != addr. Shared by the tasks of the world.
+	imu      sync.Mutex
+	isigns   map[impKey]base.BallotSignFact
+	iexsigns map[[3]int]base.NodeSign // [holder, addr, target]
 }
+
+type impKey struct{ bind, letter, holder, addr int }
 
 // crafted sign facts, [kind][letter][member]: the ballot fact is the world's
 // fact `letter`, the sign is not the member's sign of that fact
@@ -128,19 +137,78 @@ func (w *world) factAt(point base.Point, stage base.Stage, letter int, expelfact
 }
 
 func (w *world) sign(node int, fact base.BallotFact) base.BallotSignFact {
-	l := w.locals[node]
+	return w.signAs(node, node, fact)
+}
+
+// signAs makes a sign fact that names the address of locals[addr] as the
+// signing node and is signed (signer key and signature over fact + that
+// address) with the private key of locals[holder].
+func (w *world) signAs(holder, addr int, fact base.BallotFact) base.BallotSignFact {
+	priv, address := w.locals[holder].Privatekey(), w.locals[addr].Address()
 	if fact.Point().Stage() == base.StageINIT {
 		sf := isaac.NewINITBallotSignFact(fact.(base.INITBallotFact))
-		if err := sf.NodeSign(l.Privatekey(), networkID, l.Address()); err != nil {
+		if err := sf.NodeSign(priv, networkID, address); err != nil {
 			panic(err)
 		}
 		return sf
 	}
 	sf := isaac.NewACCEPTBallotSignFact(fact.(base.ACCEPTBallotFact))
-	if err := sf.NodeSign(l.Privatekey(), networkID, l.Address()); err != nil {
+	if err := sf.NodeSign(priv, networkID, address); err != nil {
 		panic(err)
 	}
 	return sf
+}
+
+// impSign: the (cached) impersonated sign fact of `fact` (identified inside the
+// world by bind and letter), in its decoded wire form like the genuine ones.
+func (w *world) impSign(bind, letter int, fact base.BallotFact, holder, addr int) base.BallotSignFact {
+	k := impKey{bind, letter, holder, addr}
+	w.imu.Lock()
+	sf, ok := w.isigns[k]
+	w.imu.Unlock()
+	if ok {
+		return sf
+	}
+	sf = craft(w.signAs(holder, addr, fact), nil, nil)
+	if !sf.Node().Equal(w.locals[addr].Address()) || !sf.Signer().Equal(w.locals[holder].Publickey()) {
+		panic("impersonated sign fact does not carry (address, key) as built")
+	}
+	w.imu.Lock()
+	if o, ok := w.isigns[k]; ok {
+		sf = o
+	} else {
+		w.isigns[k] = sf
+	}
+	w.imu.Unlock()
+	return sf
+}
+
+// impExpelSign: node sign of the expel fact against target x naming the address
+// of locals[addr], made with the key of locals[holder].
+func (w *world) impExpelSign(holder, addr, x int) base.NodeSign {
+	if holder == addr {
+		return w.exsigns[holder][x]
+	}
+	k := [3]int{holder, addr, x}
+	w.imu.Lock()
+	ns, ok := w.iexsigns[k]
+	w.imu.Unlock()
+	if ok {
+		return ns
+	}
+	n, err := base.NewBaseNodeSignFromFact(w.locals[addr].Address(), w.locals[holder].Privatekey(), networkID, w.exfacts[x])
+	if err != nil {
+		panic(err)
+	}
+	w.imu.Lock()
+	if o, ok := w.iexsigns[k]; ok {
+		ns = o
+	} else {
+		w.iexsigns[k] = n
+		ns = n
+	}
+	w.imu.Unlock()
+	return ns
 }
 
 // wire codec: sign facts reach a node as encoded messages; a crafted message
@@ -231,6 +299,8 @@ func craft(src base.BallotSignFact, fact base.BallotFact, from base.BallotSignFa
 
 func newWorld(n, t10 int, stage base.Stage) *world {
 	w := &world{n: n, t10: t10, th: base.Threshold(float64(t10) / 10), stage: stage}
+	w.isigns = map[impKey]base.BallotSignFact{}
+	w.iexsigns = map[[3]int]base.NodeSign{}
 	w.q = (n*t10 + 999) / 1000
 	w.f = n - w.q
 	w.point = base.RawPoint(33, 0)
@@ -325,6 +395,15 @@ func newWorld(n, t10 int, stage base.Stage) *world {
 			w.exsigns[s][x] = ns
 		}
 	}
+	// an impersonated sign is a well-formed, verifiable signature of its key
+	// holder over (fact, somebody else's address): only the address/key binding
+	// of the suffrage can refuse it
+	if err := w.impSign(-1, 0, w.pfacts[0], n, 0).IsValid(networkID); err != nil {
+		panic(fmt.Sprintf("impersonated sign fact is not verifiable by itself: %+v", err))
+	}
+	if err := w.impExpelSign(n, 0, 0).Verify(networkID, w.exfacts[0].Hash().Bytes()); err != nil {
+		panic(fmt.Sprintf("impersonated expel sign is not verifiable by itself: %+v", err))
+	}
 	return w
 }
 
@@ -389,6 +468,57 @@ type opset struct {
 	outsider bool
 	signers  [][]int
 	ok       bool // every operation has at least one signature (can be built)
+	holders  [][]int // impersonated operations: key holder of each sign (parallel to signers); nil = every sign made by its own node
+	nimp     int     // signs whose key holder is not the node they name
+}
+
+// buildImpOps: one expel operation per expelled node, signed under the addresses
+// `addrs(x, idx)`; the sign of address a is made with the key of holder(a)
+// (holder(a) == a: a's genuine sign). minsigns counts the distinct suffrage
+// members other than the target whose KEY signed the operation.
+func (w *world) buildImpOps(emask uint, addrs func(x, idx int) []int, holder func(a int) int) opset {
+	o := opset{minsigns: 1 << 30, ok: true}
+	idx := 0
+	for x := 0; x < w.n; x++ {
+		if emask&(1<<uint(x)) == 0 {
+			continue
+		}
+		as := addrs(x, idx)
+		idx++
+		if len(as) == 0 {
+			o.ok = false
+			return o
+		}
+		hs := make([]int, len(as))
+		signs := make([]base.NodeSign, len(as))
+		var km uint
+		for i, a := range as {
+			hs[i] = holder(a)
+			signs[i] = w.impExpelSign(hs[i], a, x)
+			if a == w.n && hs[i] == w.n {
+				o.outsider = true
+			}
+			if a != hs[i] {
+				o.nimp++
+			}
+			if hs[i] < w.n && hs[i] != x {
+				km |= 1 << uint(hs[i])
+			}
+		}
+		if c := bits.OnesCount(km); c < o.minsigns {
+			o.minsigns = c
+		}
+		o.signers = append(o.signers, as)
+		o.holders = append(o.holders, hs)
+		op := isaac.NewSuffrageExpelOperation(w.exfacts[x])
+		if err := op.SetNodeSigns(signs); err != nil {
+			// the operation itself refuses the sign set (e.g. duplicated address)
+			o.ok = false
+			return o
+		}
+		o.ops = append(o.ops, op)
+	}
+	return o
 }
 
 func (w *world) buildOps(pat int, emask uint) opset {
@@ -513,6 +643,13 @@ type accepted struct {
 	cmask   uint // members whose sign fact in the voteproof is crafted (they never signed that fact)
 	fpt     int  // 0: majority fact of the voteproof's own point; 1..3: of another round / height / stage
 	xmask   uint // members whose sign fact in the voteproof is a vote of another point (not a vote for this stage point)
+
+	// impersonation candidates: fmask holds the suffrage members whose KEY signed
+	// the majority fact (whatever address the sign names)
+	impForm   string
+	imp       [][2]int // sign facts (address, key holder) with address != key holder
+	vmask     uint     // addresses the sign facts for the majority fact name
+	opHolders [][]int  // key holder of every expel sign, when some are impersonated
 }
 
 func (a accepted) witness(w *world) map[string]any {
@@ -550,7 +687,31 @@ func (a accepted) witness(w *world) map[string]any {
 	if a.cmask != 0 {
 		m["crafted_sign_facts_of_members_who_never_signed_this_fact"] = set(a.cmask)
 	}
+	if a.impForm != "" {
+		m["impersonation_form"] = a.impForm
+		m["voters_for_majority"] = set(a.fmask)
+		m["voters_for_majority_are"] = "the suffrage members whose key made a signature on the majority fact"
+		m["addresses_named_by_the_sign_facts"] = set(a.vmask)
+		var l []string
+		for _, p := range a.imp {
+			l = append(l, fmt.Sprintf("address of %s signed with the key of %s", w.nodeName(p[0]), w.nodeName(p[1])))
+		}
+		m["sign_facts_naming_another_nodes_address"] = l
+		if a.opHolders != nil {
+			m["expel_sign_key_holders_per_operation"] = a.opHolders
+		}
+	}
 	return m
+}
+
+func (w *world) nodeName(i int) string {
+	switch {
+	case i < w.n:
+		return fmt.Sprintf("node %d", i)
+	case i == w.n:
+		return "the non-member"
+	}
+	return fmt.Sprintf("local %d", i)
 }
 
 type stats struct {
@@ -558,9 +719,13 @@ type stats struct {
 	byKind                                                    [3][2]int // [kind][accepted?]
 	reasons                                                   map[string]int
 	distinct                                                  map[string]struct{}
+	imp                                                       map[string]int // impersonation candidates: counts by form / kind / outcome
+	impSamples                                                []map[string]any
 }
 
-func newStats() *stats { return &stats{reasons: map[string]int{}, distinct: map[string]struct{}{}} }
+func newStats() *stats {
+	return &stats{reasons: map[string]int{}, distinct: map[string]struct{}{}, imp: map[string]int{}}
+}
 
 func reason(err error) string {
 	s := err.Error()
@@ -581,22 +746,24 @@ func reason(err error) string {
 }
 
 // validate runs the two real validators; accepted = both return nil.
-func (w *world) validate(st *stats, kind int, vp base.Voteproof) bool {
+func (w *world) validate(st *stats, kind int, vp base.Voteproof) (bool, string) {
 	st.cands++
 	if err := isaac.IsValidVoteproofWithSuffrage(vp, w.suf); err != nil {
 		st.rejSuffrage++
 		st.byKind[kind][0]++
-		st.reasons["suffrage-check:"+reason(err)]++
-		return false
+		why := "suffrage-check:" + reason(err)
+		st.reasons[why]++
+		return false, why
 	}
 	if err := vp.IsValid(networkID); err != nil {
 		st.rejIsValid++
 		st.byKind[kind][0]++
-		st.reasons["IsValid:"+reason(err)]++
-		return false
+		why := "IsValid:" + reason(err)
+		st.reasons[why]++
+		return false, why
 	}
 	st.byKind[kind][1]++
-	return true
+	return true, ""
 }
 
 // describe gives the shape of an accepted voteproof: its kind and every way in
@@ -651,6 +818,8 @@ type task struct {
 	sample []int
 	pats   []int
 	styles []int
+	// thorough tier: the larger impersonation family
+	thorough bool
 }
 
 func nst3(r int) int { return pow3(r) }
@@ -723,11 +892,21 @@ func (tk task) run(st *stats) []accepted {
 	var curMajFact base.BallotFact
 	var curCmask uint // crafted voters of the majority fact: counted by the validator, not votes of those members
 	var curCsrcG uint // members whose genuine sign of the OTHER fact of this point is what was replayed
+	// set by the candidates whose signs name an address other than their key
+	// holder's: fmask passed to try = members whose KEY signed the majority fact
+	var curVotesSet bool
+	var curVotes uint    // addresses named by the sign facts for the majority fact (what the validator counts)
+	var curImpForm string // impersonation form (part of the fingerprint); "" = not an impersonation candidate
+	var curImp [][2]int  // (address, key holder) of the impersonated sign facts
+	var curOps *opset    // expel operations built for this candidate instead of a pattern
 	try := func(kind, maj, style, pat int, sfs []base.BallotSignFact, fmask, gmask uint, flags []string, extra string, proper bool) {
 		sf := sfacts[style]
 		var o opset
 		if kind != kindPlain {
 			o = ops[pat]
+			if curOps != nil {
+				o = *curOps
+			}
 			if !o.ok {
 				return
 			}
@@ -743,8 +922,40 @@ func (tk task) run(st *stats) []accepted {
 			mf = curMajFact
 		}
 		vp := w.build(kind, mf, sfs, o.ops, proper)
-		okv := w.validate(st, kind, vp)
-		st.distinct[fmt.Sprintf("%s|%s|k%d|f%d|g%d|p%d|s%d|m%d|%v|%v", w, kindName[kind], k, bits.OnesCount(fmask), bits.OnesCount(gmask), pat, style, maj, flags, okv)] = struct{}{}
+		okv, why := w.validate(st, kind, vp)
+		st.distinct[fmt.Sprintf("%s|%s|k%d|f%d|g%d|p%d|s%d|m%d|%v|%s|%v", w, kindName[kind], k, bits.OnesCount(fmask), bits.OnesCount(gmask), pat, style, maj, flags, curImpForm, okv)] = struct{}{}
+		if curImpForm != "" {
+			form := curImpForm
+			if i := strings.Index(form, "|"); i >= 0 {
+				form = form[:i]
+			}
+			st.imp["candidates"]++
+			st.imp["candidates_"+kindName[kind]]++
+			st.imp["form:"+form]++
+			st.imp["impersonated_sign_facts_in_candidates"] += len(curImp)
+			if o.holders != nil {
+				st.imp["candidates_with_impersonated_expel_signs"]++
+			}
+			if okv {
+				st.imp["accepted"]++
+				st.imp["accepted_"+kindName[kind]]++
+			} else {
+				st.imp["rejected:"+why]++
+			}
+			if w.n == 4 && w.t10 == 670 && w.stage == base.StageINIT && maj == 1 && !proper && len(st.impSamples) < 1 &&
+				strings.HasPrefix(extra, "after") && strings.HasPrefix(curImpForm, "one-member-key:own-address-plus-all-others") &&
+				(tk.emask == 0 || (tk.emask == 0b0100 && kind == kindExpel && style == 1 && strings.HasSuffix(curImpForm, "|expel-signs:same-key"))) {
+				m := map[string]any{
+					"world": w.String(), "impersonation_candidate": kindName[kind], "form": curImpForm, "accepted": okv, "refused_with": why,
+					"sign_facts_address_from_key_of": curImp, "key_holders_that_signed": bits.OnesCount(fmask), "addresses_named": bits.OnesCount(curVotes),
+				}
+				if o.holders != nil {
+					m["expel_sign_addresses_per_operation"] = o.signers
+					m["expel_sign_key_holders_per_operation"] = o.holders
+				}
+				st.impSamples = append(st.impSamples, m)
+			}
+		}
 		if !okv {
 			return
 		}
@@ -759,8 +970,14 @@ func (tk task) run(st *stats) []accepted {
 			pattern: pat, signers: o.signers, extra: extra, fpt: curFpt, xmask: curXmask, cmask: curCmask,
 		}
 		a.gmask |= curCsrcG
+		if curImpForm != "" {
+			a.impForm, a.imp, a.vmask, a.opHolders = curImpForm, curImp, curVotes, o.holders
+		}
 		// the shape counts votes for the majority fact whatever point they were cast for
 		vm := fmask | curCmask
+		if curVotesSet {
+			vm = curVotes
+		}
 		if curFpt > 0 {
 			vm = curXmask
 			a.fmask = 0 // votes of another point are not votes for this stage point
@@ -824,7 +1041,7 @@ func (tk task) run(st *stats) []accepted {
 					}
 					for _, nc := range []int{1, need} { // one crafted vote topping up, or all crafted
 						var sfs []base.BallotSignFact
-						var fm, cm uint
+						var fm, cm, hm uint
 						for i, nd := range remaining[:need] {
 							if i < need-nc {
 								sfs = append(sfs, sf.signs[maj][nd])
@@ -832,14 +1049,20 @@ func (tk task) run(st *stats) []accepted {
 							} else {
 								sfs = append(sfs, w.csigns[ck][maj][nd])
 								cm |= 1 << uint(nd)
+								if ck >= cfOtherKey {
+									// the signature was made by the next member's key, on this very fact
+									hm |= 1 << uint((nd+1)%w.n)
+								}
 							}
 						}
 						curCmask = cm
 						if ck == cfOtherFact {
 							curCsrcG = cm
 						}
-						try(kind, maj, 0, patRuleRemaining, sfs, fm, 0, []string{craftedName[ck]}, phase, false)
+						curVotesSet, curVotes = true, fm|cm
+						try(kind, maj, 0, patRuleRemaining, sfs, fm|hm, 0, []string{craftedName[ck]}, phase, false)
 						curCmask, curCsrcG = 0, 0
+						curVotesSet, curVotes = false, 0
 					}
 				}
 			}
@@ -847,6 +1070,260 @@ func (tk task) run(st *stats) []accepted {
 		st.reasons["crafted-sign-candidates-accepted:"+phase] += len(out) - before
 	}
 	crafted("before the genuine voteproofs of this task")
+
+	// ---- impersonation: signs that name another node's address -----------------
+	// A node signs whatever message it likes with its own valid key, and the
+	// node address is part of that message: (address of a, key of d) is a
+	// verifiable signature. Holders: one member, f members, two members swapping,
+	// every member signing for its neighbour, an expelled member, a non-member;
+	// addresses: other members, a non-member. Always exactly as many sign facts as
+	// the voteproof needs, so it reaches its threshold only thanks to the
+	// impersonated ones. The same for the node signs of the expel operations.
+	// level 0: one form (before the genuine voteproofs); 1: sampled tasks; 2: all
+	// forms, first and last member as the single key holder; 3: every member
+	impOps := map[string]*opset{}
+	impersonated := func(phase string, level int) {
+		kinds := []int{kindPlain}
+		need := w.q
+		styles := []int{0}
+		if k > 0 {
+			kinds = []int{kindExpel, kindStuck}
+			need = r
+			styles = []int{0, 1}
+		}
+		if need < 1 || need > r {
+			return
+		}
+		type form struct {
+			name  string
+			pairs [][2]int // (address, key holder) of every sign fact
+			opKey int      // key that makes the impersonated expel signs of the candidate
+		}
+		var forms []form
+		others := func(d int) []int {
+			var o []int
+			for _, nd := range remaining {
+				if nd != d {
+					o = append(o, nd)
+				}
+			}
+			return o
+		}
+		type cnt struct {
+			c    int
+			name string
+		}
+		counts := func(max int) []cnt {
+			var c []cnt
+			if max >= 1 {
+				c = append(c, cnt{max, "all"})
+			}
+			if max >= 2 && level >= 1 {
+				c = append(c, cnt{1, "one"})
+			}
+			return c
+		}
+		// the last c addresses of addrs are signed with holder(j), the others by their own node
+		add := func(name string, own []int, addrs []int, c int, holder func(j int) int, opKey int) {
+			f := form{name: name, opKey: opKey}
+			for _, d := range own {
+				f.pairs = append(f.pairs, [2]int{d, d})
+			}
+			for j, a := range addrs {
+				h := a
+				if j >= len(addrs)-c {
+					h = holder(j)
+				}
+				f.pairs = append(f.pairs, [2]int{a, h})
+			}
+			forms = append(forms, f)
+		}
+		last := remaining[r-1]
+		ds := []int{last}
+		switch {
+		case level >= 3:
+			ds = remaining // thorough tier: every not-expelled member as the key holder
+		case level >= 2 && remaining[0] != last:
+			ds = []int{remaining[0], last}
+		}
+		for _, d := range ds {
+			d := d
+			oth := others(d)
+			for _, c := range counts(need - 1) {
+				add("one-member-key:own-address-plus-"+c.name+"-others", []int{d}, oth[:need-1], c.c, func(int) int { return d }, d)
+			}
+			if level >= 2 && len(oth) >= need {
+				for _, c := range counts(need) {
+					add("one-member-key:"+c.name+"-other-addresses-without-its-own", nil, oth[:need], c.c, func(int) int { return d }, d)
+				}
+			}
+		}
+		if w.f >= 2 && r >= w.f && need > w.f {
+			D := remaining[r-w.f:]
+			var oth []int
+			for _, nd := range remaining[:r-w.f] {
+				oth = append(oth, nd)
+			}
+			for _, c := range counts(need - w.f) {
+				add("f-member-keys:own-addresses-plus-"+c.name+"-others", D, oth[:need-w.f], c.c, func(j int) int { return D[j%len(D)] }, D[0])
+			}
+		}
+		if level >= 2 && need >= 2 {
+			as := remaining[:need]
+			add("two-members-swap-keys", nil, as, need, func(j int) int {
+				switch j {
+				case 0:
+					return as[1]
+				case 1:
+					return as[0]
+				}
+				return as[j]
+			}, as[1])
+			if need >= 3 {
+				add("every-member-key-under-the-next-address", nil, as, need, func(j int) int { return as[(j+1)%need] }, as[1])
+			}
+		}
+		if level >= 2 && k > 0 {
+			for _, c := range counts(need) {
+				add("expelled-member-key:"+c.name+"-member-addresses", nil, remaining[:need], c.c, func(int) int { return expelled[0] }, expelled[0])
+			}
+		}
+		if level >= 1 {
+			for _, c := range counts(need) {
+				if level == 1 && c.name != "all" {
+					continue
+				}
+				add("non-member-key:"+c.name+"-member-addresses", nil, remaining[:need], c.c, func(int) int { return w.n }, w.n)
+			}
+		}
+		if level >= 2 {
+			add("member-key-under-non-member-address", nil, append(append([]int{}, remaining[:need-1]...), w.n), 1, func(int) int { return last }, last)
+		}
+
+		sameKeyOps := func(key int) *opset {
+			name := fmt.Sprintf("same-key-%d", key)
+			if o, ok := impOps[name]; ok {
+				return o
+			}
+			o := w.buildImpOps(tk.emask, func(x, idx int) []int { return w.expelSigners(patRuleRemaining, tk.emask, x, idx) }, func(int) int { return key })
+			impOps[name] = &o
+			return &o
+		}
+		evariants := []string{"genuine"}
+		if k > 0 && level >= 1 {
+			evariants = []string{"genuine", "same-key"}
+		}
+		before := len(out)
+		for _, f := range forms {
+			var hm, am uint
+			var imp [][2]int
+			for _, p := range f.pairs {
+				am |= 1 << uint(p[0])
+				if p[1] < w.n {
+					hm |= 1 << uint(p[1])
+				}
+				if p[0] != p[1] {
+					imp = append(imp, p)
+				}
+			}
+			for _, kind := range kinds {
+				for maj := 0; maj < 2; maj++ {
+					for _, style := range styles {
+						sf := sfacts[style]
+						sfs := make([]base.BallotSignFact, len(f.pairs))
+						for i, p := range f.pairs {
+							if p[0] == p[1] {
+								sfs[i] = sf.signs[maj][p[0]]
+							} else {
+								sfs[i] = w.impSign(sf.bind, maj, sf.facts[maj], p[1], p[0])
+							}
+						}
+						for _, ev := range evariants {
+							flags := []string{"impersonated-address"}
+							curOps = nil
+							if ev != "genuine" {
+								curOps = sameKeyOps(f.opKey)
+								if curOps.nimp == 0 {
+									curOps = nil
+									continue // every expel sign of this candidate would be its own node's
+								}
+								flags = append(flags, "impersonated-expel-sign")
+							}
+							curVotesSet, curVotes, curImp = true, am, imp
+							curImpForm = f.name
+							if kind != kindPlain {
+								curImpForm += "|expel-signs:" + ev
+							}
+							try(kind, maj, style, patRuleRemaining, sfs, hm, 0, flags, phase, false)
+							if kind == kindStuck && maj == 0 && style == 0 && level >= 2 {
+								curImpForm += "|proper-stuck"
+								try(kindStuck, -1, 0, patRuleRemaining, sfs, hm, 0, flags, phase, true)
+							}
+							curVotesSet, curVotes, curImp, curImpForm, curOps = false, 0, nil, "", nil
+						}
+					}
+				}
+			}
+		}
+		// only the expel signs impersonated; every not-expelled node votes with its own key
+		if k > 0 && level >= 1 {
+			var all uint
+			for _, nd := range remaining {
+				all |= 1 << uint(nd)
+			}
+			type eform struct {
+				name string
+				ops  *opset
+			}
+			efs := []eform{{"expel-signs-only:one-member-key", sameKeyOps(last)}}
+			if level >= 2 {
+				efs = append(efs, eform{"expel-signs-only:expelled-member-key", sameKeyOps(expelled[0])}, eform{"expel-signs-only:non-member-key", sameKeyOps(w.n)})
+				o, ok := impOps["non-member-address"]
+				if !ok {
+					no := w.buildImpOps(tk.emask, func(x, idx int) []int {
+						return append(w.expelSigners(patRuleMinus1, tk.emask, x, idx), w.n)
+					}, func(a int) int {
+						if a == w.n {
+							return last
+						}
+						return a
+					})
+					o = &no
+					impOps["non-member-address"] = o
+				}
+				efs = append(efs, eform{"expel-signs-only:member-key-under-non-member-address", o})
+			}
+			for _, ef := range efs {
+				if ef.ops.nimp == 0 {
+					continue
+				}
+				for _, kind := range kinds {
+					for maj := 0; maj < 2; maj++ {
+						for _, style := range styles {
+							sf := sfacts[style]
+							var sfs []base.BallotSignFact
+							for _, nd := range remaining {
+								sfs = append(sfs, sf.signs[maj][nd])
+							}
+							curOps, curImpForm = ef.ops, ef.name
+							curVotesSet, curVotes = true, all
+							try(kind, maj, style, patRuleRemaining, sfs, all, 0, []string{"impersonated-expel-sign"}, phase, false)
+							curVotesSet, curVotes, curImpForm, curOps = false, 0, "", nil
+						}
+					}
+				}
+			}
+		}
+		st.reasons["impersonation-candidates-accepted:"+phase] += len(out) - before
+	}
+	implevel, implevelBefore := 2, 0
+	switch {
+	case tk.sample != nil:
+		implevel = 1
+	case tk.thorough:
+		implevel, implevelBefore = 3, 1
+	}
+	impersonated("before the genuine voteproofs of this task", implevelBefore)
 
 	nst := pow3(r)
 	statuses := tk.sample
@@ -921,6 +1398,7 @@ func (tk task) run(st *stats) []accepted {
 	}
 
 	crafted("after the genuine voteproofs of this task")
+	impersonated("after the genuine voteproofs of this task", implevel)
 
 	// ---- votes of a neighbouring point packed into a voteproof of this point --
 	// Honest nodes vote for other facts in the next round, at the next height
@@ -1137,11 +1615,12 @@ func pairUp(w *world, acc []accepted, found map[string]*violation, counts map[st
 func TestC03(t *testing.T) {
 	r := vlib.Start(t, "C03", vlib.LevelExploration)
 	defer r.Finish()
-	r.SetRule("world = (n real key pairs as suffrage, threshold t, stage INIT/ACCEPT, two facts A and B at one stage point, real signed sign facts of every node for both facts, real expel operations assembled from real node signatures); case = one candidate voteproof (plain / expel / stuck; majority A, B or none; every assignment {absent, votes majority fact, votes other fact, expelled} of the nodes; 8 expel-signer patterns; ballot facts with and without expel facts; variants with repeated sign facts, non-member, wrong key, expelled voter; voteproofs packed with the honest votes of a neighbouring point - next round, next height, other stage - as majority and sign facts, or as one topping-up vote; crafted wire messages that attach a member's genuine sign of the other fact / of the next round / another member's key or signature to this fact, tried before and after the genuine voteproofs) passed through the real IsValidVoteproofWithSuffrage and vp.IsValid; oracle pairs only accepted voteproofs with different majority facts and asks whether the nodes that signed two different facts number <= f; distinct = (world, kind, k, #majority votes, #other votes, signer pattern, fact style, majority, flags, accepted)")
+	r.SetRule("world = (n real key pairs as suffrage, threshold t, stage INIT/ACCEPT, two facts A and B at one stage point, real signed sign facts of every node for both facts, real expel operations assembled from real node signatures); case = one candidate voteproof (plain / expel / stuck; majority A, B or none; every assignment {absent, votes majority fact, votes other fact, expelled} of the nodes; 8 expel-signer patterns; ballot facts with and without expel facts; variants with repeated sign facts, non-member, wrong key, expelled voter; voteproofs packed with the honest votes of a neighbouring point - next round, next height, other stage - as majority and sign facts, or as one topping-up vote; crafted wire messages that attach a member's genuine sign of the other fact / of the next round / another member's key or signature to this fact, tried before and after the genuine voteproofs; impersonation candidates, also before and after: sign facts that name the ADDRESS of one node and are signed, verifiably, with the KEY of another - one member for other members (with/without its own address, one or all of the other votes), f members, two members swapping, every member for its neighbour, an expelled member, a non-member key under member addresses, a member key under a non-member address - in plain, expel and stuck voteproofs with exactly as many sign facts as the threshold needs, and the same for the node signs of the expel operations, alone and together with impersonated votes) passed through the real IsValidVoteproofWithSuffrage and vp.IsValid; oracle pairs only accepted voteproofs with different majority facts and asks whether the nodes that signed two different facts number <= f, a node having signed a fact when its KEY made a signature on it, whatever address the sign names; distinct = (world, kind, k, #majority votes, #other votes, signer pattern, fact style, majority, flags, accepted)")
 	r.Assume("every candidate of a world carries the world's threshold (stuck voteproofs: 100, as their validation demands); f = n - ceil(n*t/100) in exact integer arithmetic")
 	r.Assume("who signs an expel operation is unconstrained (statement: any suffrage node may sign expels); equivocation = one suffrage node signing two different ballot facts for the stage point")
 	r.Assume("ballot facts that carry different expel facts are different facts")
 	r.Assume("a crafted sign fact (a member's genuine sign of another fact, of another round, or another member's key/signature, attached to this fact through the wire codec) is not a vote of that member: the member signed only the fact the sign was made for")
+	r.Assume("signing is judged by the key: a sign naming the address of node a made with the key of node d is a signature of d (d is the equivocator if it signs two facts), never of a; a key outside the suffrage belongs to no suffrage node")
 	r.Assume("a sign fact whose ballot fact belongs to another round, height or stage is an honest vote for that other point: it does not make its signer an equivocator at this stage point")
 
 	type wspec struct {
@@ -1181,7 +1660,7 @@ func TestC03(t *testing.T) {
 	var tasks []task
 	for wi, w := range worlds {
 		for em := uint(0); em < 1<<uint(w.n)-1; em++ {
-			tk := task{w: w, emask: em, pats: allPats, styles: []int{0, 1, 2}}
+			tk := task{w: w, emask: em, pats: allPats, styles: []int{0, 1, 2}, thorough: r.Thorough()}
 			if !specs[wi].full {
 				k := bits.OnesCount(em)
 				rr := w.n - k
@@ -1254,6 +1733,10 @@ func TestC03(t *testing.T) {
 		for k := range st.distinct {
 			total.distinct[k] = struct{}{}
 		}
+		for k, v := range st.imp {
+			total.imp[k] += v
+		}
+		total.impSamples = append(total.impSamples, st.impSamples...)
 	})
 	r.Logf("validation done at %.1fs: %d candidates, %d accepted with majority", time.Since(t0).Seconds(), total.cands, total.acceptedMaj)
 
@@ -1271,6 +1754,21 @@ func TestC03(t *testing.T) {
 		r.Count("candidates_"+kindName[k]+"_accepted", total.byKind[k][1])
 	}
 	r.Set("rejection_reasons", total.reasons)
+	// impersonation candidates (signs naming an address other than their key holder's)
+	r.Count("impersonation_candidates", total.imp["candidates"])
+	r.Count("impersonation_candidates_accepted", total.imp["accepted"])
+	r.Count("impersonation_candidates_with_impersonated_expel_signs", total.imp["candidates_with_impersonated_expel_signs"])
+	r.Count("impersonated_sign_facts_in_candidates", total.imp["impersonated_sign_facts_in_candidates"])
+	r.Set("impersonation_candidates_by_form_kind_and_outcome", total.imp)
+	nis, nes := 0, 0
+	for _, w := range worlds {
+		w.imu.Lock()
+		nis += len(w.isigns)
+		nes += len(w.iexsigns)
+		w.imu.Unlock()
+	}
+	r.Count("distinct_impersonated_ballot_signs_made", nis)
+	r.Count("distinct_impersonated_expel_signs_made", nes)
 
 	// ---- oracle -----------------------------------------------------------
 	found := map[string]*violation{}
@@ -1328,6 +1826,10 @@ func TestC03(t *testing.T) {
 		if v.a.cmask != 0 || v.b.cmask != 0 {
 			what += fmt.Sprintf("; crafted sign facts (members who never signed that fact): %v / %v", wa["crafted_sign_facts_of_members_who_never_signed_this_fact"], wb["crafted_sign_facts_of_members_who_never_signed_this_fact"])
 		}
+		if v.a.impForm != "" || v.b.impForm != "" {
+			what += fmt.Sprintf("; voters = members whose key signed; signs naming another node's address: %v (sign facts naming addresses %v) / %v (sign facts naming addresses %v)",
+				wa["sign_facts_naming_another_nodes_address"], wa["addresses_named_by_the_sign_facts"], wb["sign_facts_naming_another_nodes_address"], wb["addresses_named_by_the_sign_facts"])
+		}
 		if v.a.xmask != 0 || v.b.xmask != 0 {
 			what += fmt.Sprintf("; sign facts that are votes of another point: %v / %v", wa["sign_facts_that_are_votes_of_another_point"], wb["sign_facts_that_are_votes_of_another_point"])
 		}
@@ -1339,7 +1841,13 @@ func TestC03(t *testing.T) {
 	}
 	r.Set("violation_signatures", sigs)
 
-	// samples: the probe case and three accepted shapes
+	// samples: impersonation candidates, the probe case and accepted shapes
+	sort.Slice(total.impSamples, func(i, j int) bool {
+		return fmt.Sprint(total.impSamples[i]) < fmt.Sprint(total.impSamples[j])
+	})
+	for _, m := range total.impSamples {
+		r.Sample(m)
+	}
 	for _, w := range worlds {
 		if w.n == 4 && w.t10 == 670 && w.stage == base.StageINIT {
 			var pa, pb *accepted
@@ -1366,12 +1874,15 @@ func TestC03(t *testing.T) {
 			}
 			n := 0
 			for _, a := range accByWorld[w] {
-				if n < 5 && (a.kind != kindPlain || n == 0) && a.pattern <= patRuleRemaining && a.bind < 0 && a.maj == 0 {
+				if n < 4 && (a.kind != kindPlain || n == 0) && a.pattern <= patRuleRemaining && a.bind < 0 && a.maj == 0 && a.impForm == "" {
 					r.Sample(map[string]any{"world": w.String(), "accepted_voteproof": a.witness(w)})
 					n++
 				}
 			}
 		}
+	}
+	if total.imp["candidates"] == 0 {
+		r.Inconclusive("no impersonation candidate was built")
 	}
 	if total.acceptedMaj == 0 {
 		r.Inconclusive("no candidate voteproof was accepted by the validators")
